@@ -175,6 +175,9 @@ func (c *Ctx) havocAll(s *State, guard *Term, except func(string) bool) {
 		if k == "$clk" || (except != nil && except(k)) {
 			continue
 		}
+		if _, wired := c.V.wiring[k]; wired {
+			continue // never assigned after construction (checked over the whole repository at load time)
+		}
 		c.havoc(s, k)
 	}
 	c.tick(s, guard)
